@@ -177,7 +177,7 @@ Definition online_step (size : nat) (st : list (nat * T) * nat * nat * nat)
         else
           match m_at size result (i - 1) tentative, nth_error result tentative with
           | Some v, Some (_, rt) =>
-              if negb (ltb Nm v rt) then Some (result, i, base, tentative)
+              if geb Nm v rt then Some (result, i, base, tentative)
               else Some (result, i, (i - 1)%nat, i)
           | _, _ => None
           end
